@@ -1,7 +1,7 @@
 """C15 -- incomplete mode (DESIGN 5.15)."""
 import json
 from framework import *
-import lexcheck
+import lexcheck, pegexec
 import svx_grammar, snippets, svtree
 
 PARTIAL = ("proved over the regenerated grammar, for every behaviour of the primitives that consumes at least one byte and stays "
@@ -51,6 +51,14 @@ def check(ctx):
     pool = snippets.sv_sources()
     base = r.sample(pool, min(len(pool), 60 if (q and not deep) else 500))
     srcs = [("sv", h) for h in HEADS] + [("lib", h) for h in HEADS] + base + [("sv", t) for t in snippets.KW_REGIONS]
+    # incomplete mode in the executable grammar: prefixes and sources with junk behind them -- the regenerated
+    # source_text_incomplete / library_text_incomplete, run, must return the real parser's tree
+    gtexts = []
+    for k, s in r.sample(srcs, min(len(srcs), 40 if q else 250)):
+        if len(s) < 1500:
+            gtexts.append((k + "i", s[:r.randrange(len(s) + 1)]))
+            gtexts.append((k + "i", s + "\n) garbage ( endmodule"))
+    pegexec.correspond(ctx, gtexts, "c15peg", minimum=50)
     # long sources (more descriptions than the memo holds) whose last description stands in a keyword region that is still open
     # at the end of the text: junk behind them must not change what is returned for the descriptions in front
     for nmod in (6, 14, 40):
